@@ -755,6 +755,37 @@ func ruleRelMapTotal(c *eng.Ctx) {
 			continue
 		}
 		eng.Instrs(fn, false, func(in ssa.Instruction) {
+			// the table as a list of pairs: a struct made from ID and Target in a loop and appended
+			if st, isSt := in.(*ssa.Store); isSt && eng.InLoop(st.Block()) {
+				if fa, ok := st.Addr.(*ssa.FieldAddr); ok {
+					if _, isLocal := fa.X.(*ssa.Alloc); isLocal {
+						fromF := func(v ssa.Value, field string) bool {
+							for w := range eng.Slice(v, nil) {
+								if fr, ok := eng.AsField(w); ok && fr.Field == field {
+									return true
+								}
+							}
+							return false
+						}
+						if fromF(st.Val, "ID") {
+							hasTarget := false
+							for _, r := range *fa.X.Referrers() {
+								if fa2, ok := r.(*ssa.FieldAddr); ok && fa2 != fa {
+									for _, rr := range *fa2.Referrers() {
+										if s2, ok := rr.(*ssa.Store); ok && fromF(s2.Val, "Target") {
+											hasTarget = true
+										}
+									}
+								}
+							}
+							if hasTarget {
+								bad := relFilterOnTarget(c, fn, st.Block())
+								c.Check(bad == "", R, eng.FuncName(fn)+"#rid-table", st.Pos(), "every relationship is recorded", "the r:id -> target table skips relationships depending on the text of their Target (test at "+bad+"): a part written with an absolute or unusual path is no longer found by its id")
+							}
+						}
+					}
+				}
+			}
 			mu, ok := in.(*ssa.MapUpdate)
 			if !ok || !eng.InLoop(mu.Block()) {
 				return
@@ -2223,6 +2254,18 @@ func rulePositionalDefaultOnlyWhenUndeclared(c *eng.Ctx) {
 							if _, isLk := w.(*ssa.Lookup); isLk {
 								return true
 							}
+							// the target looked up by a function of the package that is handed the r:id
+							if call, isCall := w.(*ssa.Call); isCall {
+								if g := eng.StaticCallee(call); g != nil && g.Pkg == h.Pkg {
+									for _, a := range eng.ArgsWithRecv(call) {
+										for u := range eng.Slice(a, nil) {
+											if fr, ok := eng.AsField(u); ok && fr.Field == "RID" {
+												return true
+											}
+										}
+									}
+								}
+							}
 						}
 					}
 				}
@@ -2647,4 +2690,38 @@ func ruleParagraphPageCoordinates(c *eng.Ctx) {
 		})
 	}
 	c.Check(restored, R, "layout.(*ReadingOrderResult).GetParagraphs#page-coordinates", gp.Pos(), "the column offset is added back to the paragraph boxes", "paragraphs leave the reading order with X positions relative to their column although headings and lists are in page coordinates: the bounding-box match in buildElementTree fails and heading text is emitted a second time as a paragraph")
+}
+
+// relFilterOnTarget: the position of a branch that decides whether block blk runs by looking at the text of a
+// relationship's Target ("" when there is none; a comparison of the whole target with "" does not count).
+func relFilterOnTarget(c *eng.Ctx, fn *ssa.Function, blk *ssa.BasicBlock) string {
+	bad := ""
+	for _, b := range fn.Blocks {
+		if len(b.Instrs) == 0 || !b.Dominates(blk) || b == blk {
+			continue
+		}
+		iff, ok := b.Instrs[len(b.Instrs)-1].(*ssa.If)
+		if !ok {
+			continue
+		}
+		readsTarget := false
+		for w := range eng.Slice(iff.Cond, func(call *ssa.Call) bool { return strings.HasPrefix(eng.CalleeName(call), "strings.") }) {
+			if fr, ok := eng.AsField(w); ok && fr.Field == "Target" {
+				readsTarget = true
+			}
+		}
+		if !readsTarget {
+			continue
+		}
+		if cmp, ok := iff.Cond.(*ssa.BinOp); ok && (cmp.Op == token.EQL || cmp.Op == token.NEQ) {
+			if s, ok := eng.ConstString(cmp.Y); ok && s == "" {
+				continue
+			}
+			if s, ok := eng.ConstString(cmp.X); ok && s == "" {
+				continue
+			}
+		}
+		bad = c.P.Pos(iff.Cond.Pos())
+	}
+	return bad
 }
